@@ -212,7 +212,7 @@ def jacobian_cases(draw, tier):
                                       max_boxes=3, gates=["rot", "rot",
                                                           "named"]))
     return {"d": spec, "vars": draw(st.lists(st.sampled_from(["u", "v", "x"]),
-                                             unique=True, max_size=3)),
+                                             unique=True, max_size=2)),
             "mixed": draw(st.booleans()),
             "env": {s: draw(st.sampled_from(POINTS))
                     for s in ["u", "v", "x", "y", "z"]}}
@@ -269,7 +269,7 @@ core.register("C15", [
           "optionally inside a polynomial bubble; gradient and jacobian vs "
           "symbolic differentiation of the evaluation"),
     Facet("jacobians", jacobian_cases, check_jacobian, n_quick=80,
-          shards_quick=4, rule="circuit jacobians over 0-2 variables"),
+          shards_quick=4, rule="circuit jacobians over 0-2 variables out of three, one of which never occurs"),
 ], rule=RULE, assumptions=[
     "symbols are real; the derivative of the library's own symbolic "
     "evaluation (sympy, exact) is the primary reference (tolerance 1e-7), a "
